@@ -4,6 +4,7 @@ import (
 	"bytes"
 	"context"
 	"fmt"
+	"github.com/segmentio/ksuid"
 	"sort"
 	"strings"
 	"testing"
@@ -551,7 +552,7 @@ func TestC06(t *testing.T) {
 	if lib.Thorough() {
 		pb = 3
 	}
-	rep.Rule = fmt.Sprintf("history: 2 repos, 2 committed bundles (2 index files each), a label (+ a diamond with 2 done splits); operation under test in {upload, empty upload, diamond commit, label move, new label}: (1) a crash before/after EVERY store write (blob, metadata, vmetadata) of the operation, then the observer battery (ListBundles with page sizes 1..4, GetLatestBundle, Exists, full download of every visible bundle, labels), then a retry and the battery again; (2) the battery as a concurrent reader against the in-flight operation, all interleavings with <=%d preemptions at metadata-call granularity; (3) two uploaders of different content with the same preserved bundle ID and a reader downloading that bundle twice, all interleavings with one preemption fewer: at most one success, the visible bundle is the successful one's, the reader never sees it change, no metadata object rewritten; (4) every operation under a single transient failure at EVERY store call (fail before; writes: fail after landing / after reading the body; reads: hang then fail): no partial bundle visible, earlier objects intact, a reported success means the result is completely there, a retry works; distinct = distinct (scenario, crash site, outcome)", pb)
+	rep.Rule = fmt.Sprintf("history: 2 repos, 2 committed bundles (2 index files each), a label (+ a diamond with 2 done splits); operation under test in {upload, empty upload, diamond commit, label move, new label}: (1) a crash before/after EVERY store write (blob, metadata, vmetadata) of the operation, then the observer battery (ListBundles with page sizes 1..4, GetLatestBundle, Exists, full download of every visible bundle, labels), then a retry and the battery again; (2) the battery as a concurrent reader against the in-flight operation, all interleavings with <=%d preemptions at metadata-call granularity; (3) two uploaders of different content with the same preserved bundle ID and a reader downloading that bundle twice, all interleavings with one preemption fewer: at most one success, the visible bundle is the successful one's, the reader never sees it change, no metadata object rewritten; (4) every operation under a single transient failure at EVERY store call (fail before; writes: fail after landing / after reading the body; reads: hang then fail): no partial bundle visible, earlier objects intact, a reported success means the result is completely there, a retry works; (5) histories of 1..3 committed bundles with a run of 1..3 interrupted uploads at every position: listing, latest, existence and downloads; distinct = distinct (scenario, crash site, outcome)", pb)
 	ops := []string{"upload", "upload-empty", "commit", "label-move", "label-new"}
 	var scs []*lib.Scenario
 	var bounds [][2]int
@@ -595,5 +596,89 @@ func TestC06(t *testing.T) {
 	})
 	if parent {
 		rep.Set("preemption_bound_completed_for_reader_scenarios", pb)
+		c06leftovers(t, rep)
 	}
+}
+
+// c06leftovers: histories of k committed bundles with, at every position, a RUN of 1..3 interrupted uploads (each left
+// 1 or 2 index files and no descriptor, as a crash before the descriptor write does; retries that crash again give runs):
+// listing shows exactly the committed bundles, latest-bundle resolution names the most recent committed one, every
+// committed bundle downloads, the leftovers do not exist.
+func c06leftovers(t *testing.T, rep *lib.Report) {
+	n := 0
+	for k := 1; k <= 3; k++ {
+		for pos := 0; pos <= k; pos++ {
+			for run := 1; run <= 3; run++ {
+				k, pos, run := k, pos, run
+				lib.Bubble(t, func() {
+					w := NewWorld()
+					w.Blob.NoJournal = true
+					st := w.Stores()
+					_ = mkRepo(st, "r")
+					var ids, lefts []string
+					files := map[string]map[string][]byte{}
+					left := func() {
+						for j := 0; j < run; j++ {
+							id, _ := ksuid.NewRandom()
+							for f := 0; f <= j%2; f++ {
+								w.Meta.RawSet(model.GetArchivePathToBundleFileList("r", id.String(), uint64(f)), []byte("BundleEntries: []\n"))
+							}
+							lefts = append(lefts, id.String())
+							time.Sleep(time.Second)
+						}
+					}
+					for i := 0; i < k; i++ {
+						if pos == i {
+							left()
+						}
+						f := map[string][]byte{fmt.Sprintf("f%d", i): []byte(fmt.Sprintf("content-%d", i))}
+						b, err := uploadFiles(st, "r", f, c06L, 1)
+						if err != nil {
+							panic(err)
+						}
+						ids = append(ids, b.BundleID)
+						files[b.BundleID] = f
+						time.Sleep(time.Second)
+					}
+					if pos == k {
+						left()
+					}
+					desc := fmt.Sprintf("%d committed bundles, a run of %d interrupted uploads before #%d", k, run, pos)
+					rp := map[string]interface{}{"committed": k, "leftover_run": run, "position": pos}
+					shape := fmt.Sprintf("run=%d|%s", run, map[bool]string{true: "at-the-tail", false: "inside"}[pos == k])
+					rep.Eval(1)
+					n++
+					for page := 1; page <= 3; page++ {
+						bs, err := core.ListBundles("r", st, core.BatchSize(page))
+						var got []string
+						for _, b := range bs {
+							got = append(got, b.ID)
+						}
+						if err != nil || strings.Join(got, ",") != strings.Join(ids, ",") {
+							rep.Violate("C06|leftovers|listing-differs-from-committed-set|"+shape, fmt.Sprintf("%s: ListBundles(page=%d)=%v (%v), committed %v", desc, page, got, err, ids), rp)
+							break
+						}
+					}
+					latest, err := core.GetLatestBundle("r", st)
+					if err != nil || latest != ids[len(ids)-1] {
+						rep.Violate("C06|leftovers|latest-is-not-the-most-recent-committed|"+shape, fmt.Sprintf("%s: GetLatestBundle=%q (%v), most recent committed %s, interrupted %v", desc, latest, err, ids[len(ids)-1], lefts), rp)
+					}
+					for _, id := range lefts {
+						b := core.NewBundle(core.Repo("r"), core.ContextStores(st), core.BundleID(id), core.Logger(nopLogger))
+						if ex, err := b.Exists(context.Background()); err == nil && ex {
+							rep.Violate("C06|leftovers|interrupted-upload-exists|"+shape, fmt.Sprintf("%s: bundle %s has no descriptor but Exists says true", desc, id), rp)
+						}
+					}
+					for _, id := range ids {
+						dest := lib.NewMemStore("dest")
+						dest.NoCRC, dest.NoJournal = true, true
+						if _, err := downloadBundle(st, "r", id, dest, 1); err != nil {
+							rep.Violate("C06|leftovers|committed-bundle-not-downloadable|"+shape, fmt.Sprintf("%s: %s: %v", desc, id, err), rp)
+						}
+					}
+				})
+			}
+		}
+	}
+	rep.Set("histories_with_runs_of_interrupted_uploads", n)
 }
